@@ -35,7 +35,7 @@ REPLAY(sext) { wrapint a = mkw(wit, "a"); uint64_t bits = wit.u("bits"); show("s
 REPLAY(zext) { wrapint a = mkw(wit, "a"); uint64_t bits = wit.u("bits"); show("self", a); printf("  bits = %llu\n", (unsigned long long)bits); wrapint r = a.zext(bits); show("result", r); return POST_zext(L(r), L(a), bits); }
 REPLAY(keep_lower) { wrapint a = mkw(wit, "a"); uint64_t bits = wit.u("bits"); show("self", a); printf("  bits = %llu\n", (unsigned long long)bits); wrapint r = a.keep_lower(bits); show("result", r); return POST_keep_lower(L(r), L(a), bits); }
 REPLAY(ctor_nw) { uint64_t n = wit.u("n"), w = wit.u("w"); printf("  n=%llu w=%llu\n", (unsigned long long)n, (unsigned long long)w); wrapint r(n, w); show("result", r); return POST_ctor_nw(L(r), n, w); }
-REPLAY(ctor_z) { int64_t n = (int64_t)wit.u("n.f0.a[0].f0"); uint64_t w = wit.u("w"); printf("  z=%lld w=%llu\n", (long long)n, (unsigned long long)w); wrapint r(z_number(n), w); show("result", r); return w_is(*L(r), w, wrapz((i128)n, w)); }
+REPLAY(ctor_z) { int64_t n = (int64_t)wit.u("n.f0.a.f0"); uint64_t w = wit.u("w"); printf("  z=%lld w=%llu\n", (long long)n, (unsigned long long)w); wrapint r(z_number(n), w); show("result", r); return w_is(*L(r), w, wrapz((i128)n, w)); }
 #define RSTAT(id, F, POST) REPLAY(id) { uint64_t w = wit.u("w"); printf("  w=%llu\n", (unsigned long long)w); wrapint r = wrapint::F(w); show("result", r); return POST(L(r), w); }
 RSTAT(smax, get_signed_max, POST_smax) RSTAT(smin, get_signed_min, POST_smin) RSTAT(umax, get_unsigned_max, POST_umax) RSTAT(umin, get_unsigned_min, POST_umin)
 REPLAY(msb) { wrapint a = mkw(wit, "a"); show("self", a); return a.msb() == (((L(a)->f0) >> (L(a)->f1 - 1)) & 1); }
@@ -44,5 +44,5 @@ REPLAY(get_uint64) { wrapint a = mkw(wit, "a"); return a.get_uint64_t() == L(a)-
 REPLAY(get_bitwidth) { wrapint a = mkw(wit, "a"); return a.get_bitwidth() == L(a)->f1; }
 REPLAY(ubignum) { wrapint a = mkw(wit, "a"); show("self", a); return zval(a.get_unsigned_bignum()) == (i128)(u128)L(a)->f0; }
 REPLAY(sbignum) { wrapint a = mkw(wit, "a"); show("self", a); return zval(a.get_signed_bignum()) == sxv(L(a)->f0, L(a)->f1); }
-REPLAY(fits_z) { int64_t n = (int64_t)wit.u("n.f0.a[0].f0"); uint64_t w = wit.u("w"); if (wit.u("n.f0.a[0].f1") != (n < 0 ? ~0ULL : 0ULL)) return true; /* beyond int64: not rebuilt */ return wrapint::fits_wrapint(z_number(n), w) == (w <= 64); }
+REPLAY(fits_z) { int64_t n = (int64_t)wit.u("n.f0.a.f0"); uint64_t w = wit.u("w"); if (wit.u("n.f0.a.f1") != (n < 0 ? ~0ULL : 0ULL)) return true; /* beyond int64: not rebuilt */ return wrapint::fits_wrapint(z_number(n), w) == (w <= 64); }
 int main(int argc, char **argv) { return replay_main(argc, argv); }
